@@ -358,3 +358,7 @@ pub fn cells_adjacent(depth: u8, a: u64, b: u64) -> bool {
   for p in va.iter() { for q in vb.iter() { if (p.1 - q.1).abs() <= tol && dist(*p, *q) <= tol { return true; } } }
   false
 }
+
+/// Positions given with a longitude many turns away: |lon|.4/pi carries a relative rounding error of a few eps, i.e. an absolute
+/// uncertainty of a few eps.|lon| on the position itself (1e-11 rad at 1e5 rad). `base` (the statement's tolerance) up to 50 rad.
+pub fn far_tol(base: f64, lon: f64) -> f64 { base.max(16.0 * f64::EPSILON * lon.abs()) }
